@@ -185,16 +185,26 @@ def gen_image(spec):
         if cls == "OpticalImage":
             kw.pop("space_dim")
             kw.pop("scalar")
-            return darsia.OpticalImage(a, color_space=spec.get("color_space", "RGB"), **kw)
-        if cls == "ScalarImage":
+            img = darsia.OpticalImage(a, color_space=spec.get("color_space", "RGB"), **kw)
+            if spec.get("to_space"):
+                # the documented conversion: the image is then in one of the five trichromatic spaces
+                img = img.to_trichromatic(spec["to_space"], return_image=True)
+        elif cls == "ScalarImage":
             kw.pop("scalar")
-            return darsia.ScalarImage(a, **kw)
-        return darsia.Image(a, **kw)
+            img = darsia.ScalarImage(a, **kw)
+        else:
+            img = darsia.Image(a, **kw)
+        if spec.get("img_as"):
+            # what the optical readers do: integer data converted to floats; the image remembers its origin
+            img = img.img_as({"float": float, "float32": np.float32}[spec["img_as"]])
+        return img
 
 
 def image_token(img) -> dict:
     """Pixel data, dtype and public metadata of an image (what the statement names)."""
     t = snap(np.asarray(img.img), "img")
+    t["kind"] = type(img).__name__
+    t["original_dtype"] = str(np.dtype(img.original_dtype))
     md = img.metadata()
     for k in sorted(md):
         # the attribute itself, not what metadata() reports about it (metadata() is code under test)
@@ -205,8 +215,11 @@ def image_token(img) -> dict:
     return t
 
 
-def reload_token(img, keys) -> dict:
+def reload_token(img, keys, equivalence=True) -> dict:
     t = snap(np.asarray(img.img), "img")
+    if equivalence:
+        t["kind"] = type(img).__name__
+        t["original_dtype"] = str(np.dtype(getattr(img, "original_dtype", img.img.dtype)))
     md = img.metadata()
     for k in keys:
         v = getattr(img, k) if hasattr(img, k) else md.get(k, "<missing>")
@@ -318,10 +331,12 @@ def correction_input(spec, probe="std"):
     raise HarnessError(k)
 
 
-def apply_correction(corr, spec, probe="std"):
+def apply_correction(corr, spec, probe="std", rng=0):
     x = correction_input(spec, probe)
-    cv2.setRNGSeed(12345 + spec.get("input", 0))  # RNG seam: OpenCV's k-means / RANSAC draw from cv::theRNG
-    np.random.seed(4321)
+    # RNG seam: OpenCV's k-means / RANSAC draw from cv::theRNG; the state is owned by the harness and differs
+    # between the stored and the reloaded object (rng=0 / rng=1), as it does between two sessions
+    cv2.setRNGSeed(12345 + spec.get("input", 0) + 1000 * rng * spec.get("rng_skew", 1))
+    np.random.seed(4321 + rng * spec.get("rng_skew", 1))
     with warnings.catch_warnings():
         warnings.simplefilter("ignore")
         try:
@@ -334,11 +349,11 @@ def apply_correction(corr, spec, probe="std"):
             return ("exc", type(e).__name__)
 
 
-def apply_probes(corr, spec, order):
+def apply_probes(corr, spec, order, rng=0):
     """Outputs of the correction for every probe input, applied in the given order (a correction must not
     depend on what it has seen before: the stored object and the reloaded one see the probes in different orders)."""
     probes = PROBES if spec["kind"] != "color" else ["std", "alt"]
-    return {p: apply_correction(corr, spec, p) for p in order if p in probes}
+    return {p: apply_correction(corr, spec, p, rng) for p in order if p in probes}
 
 
 # ----------------------------------------------------------------------------- one segment, in a pristine fork
@@ -451,7 +466,8 @@ def run_segment(case, seg_steps, model, root, magick):
                     md = {kk: v for kk, v in img.metadata().items() if kk != "color_space"}
                     with _quiet():
                         got = darsia.imread(path, **md)
-                    if reload_token(got, sorted(md)) != {kk: v for kk, v in image_token(img).items() if not kk.startswith("meta.color_space")}:
+                    if reload_token(got, sorted(md), equivalence=False) != {kk: v for kk, v in image_token(img).items()
+                                                                            if not kk.startswith("meta.color_space") and kk not in ("kind", "original_dtype")}:
                         viol.append({"oracle": "C18.R", "culprit": "npy-array-with-metadata-differs", "step": idx,
                                      "detail": {"image": spec}})
                     else:
@@ -585,7 +601,7 @@ def run_segment(case, seg_steps, model, root, magick):
                             viol.append({"oracle": "C18.C", "culprit": f"{spec['kind']}:saved-correction-unreadable:{rexc}",
                                          "step": idx, "detail": {"correction": spec}})
                         else:
-                            res = apply_probes(corr, spec, ["flat", "alt", "std"])
+                            res = apply_probes(corr, spec, ["flat", "alt", "std"], rng=1)
                             bad = [p for p in res if res[p] != m["out"].get(p)]
                             if bad:
                                 p0 = bad[0]
@@ -689,13 +705,17 @@ class C18Engine(Engine):
         cls = r.choice(["Image", "Image", "Image", "ScalarImage", "OpticalImage"])
         if cls == "OpticalImage":
             spec = {"cls": cls, "shape": [r.randint(2, 5), r.randint(2, 5)], "chan": [3],
-                    "dtype": r.choice(["uint8", "uint16", "float32", "float64"]), "color_space": r.choice(["RGB", "BGR"])}
+                    "dtype": r.choice(["uint8", "uint16", "float32", "float64"]), "color_space": r.choice(["RGB", "BGR", "HSV"])}
+            if spec["color_space"] != "HSV" and spec["dtype"] != "uint16" and r.random() < 0.35:
+                spec["to_space"] = r.choice(["HSV", "HLS", "LAB"])
         else:
             d = r.choice([1, 2, 2, 3])
             spec = {"cls": cls, "shape": [r.randint(1, 5) for _ in range(d)],
                     "dtype": r.choice(["bool", "uint8", "uint16", "float32", "float64"])}
             if cls == "Image" and r.random() < 0.35:
                 spec["chan"] = r.choice([[1], [2], [3], [2, 2]])
+        if spec["dtype"] in ("uint8", "uint16") and r.random() < 0.25:
+            spec["img_as"] = r.choice(["float", "float", "float32"])
         if r.random() < 0.4:
             spec["series"] = r.randint(1, 4)
         spec["time"] = r.choice(["none", "date", "time", "both"])
